@@ -6,12 +6,14 @@ so it links as an executable.
 import SradModel.Drv.Reseq
 import SradModel.Drv.Codec
 import SradModel.Drv.Host
+import SradModel.Drv.Templ
 
 open Srad Srad.Drv
 
 structure DState where
   reseq : Reseq.St Nat := Reseq.init
   host : HostD := {}
+  templ : Templ.Registry := []
 
 def step (st : DState) (line : String) : DState × String :=
   match words line with
@@ -22,6 +24,9 @@ def step (st : DState) (line : String) : DState × String :=
   | "host" :: rest =>
     let (h, o) := stepHost st.host rest
     ({ st with host := h }, o)
+  | "templ" :: rest =>
+    let (r, o) := stepTempl st.templ rest
+    ({ st with templ := r }, o)
   | _ => (st, "bad-op")
 
 partial def loop (h : IO.FS.Stream) (out : IO.FS.Stream) (st : DState) : IO Unit := do
